@@ -654,8 +654,14 @@ impl QueryEngine {
     ) {
         match plan {
             LogicalPlan::Filter(filter) => {
-                if let Some(pred) = Self::convert_expr_to_predicate(&filter.predicate) {
-                    predicates.push(pred);
+                // Column statistics describe the stored columns: a filter can only be matched
+                // against them where the names it uses are still the stored columns' names
+                // (not above a derived table or an aggregate that re-uses a name for a
+                // computed value).
+                if Self::exposes_stored_columns(&filter.input) {
+                    if let Some(pred) = Self::convert_expr_to_predicate(&filter.predicate) {
+                        predicates.push(pred);
+                    }
                 }
                 Self::extract_predicates_from_plan(&filter.input, predicates);
             }
@@ -672,6 +678,22 @@ impl QueryEngine {
                 Self::extract_predicates_from_plan(&agg.input, predicates);
             }
             _ => {}
+        }
+    }
+
+    /// Does `plan` output the stored table's columns under their own names? True for the table
+    /// scan itself and for operators that only pass rows through or select plain columns.
+    fn exposes_stored_columns(plan: &LogicalPlan) -> bool {
+        match plan {
+            LogicalPlan::TableScan(_) => true,
+            LogicalPlan::Filter(filter) => Self::exposes_stored_columns(&filter.input),
+            LogicalPlan::Sort(sort) => Self::exposes_stored_columns(&sort.input),
+            LogicalPlan::Limit(limit) => Self::exposes_stored_columns(&limit.input),
+            LogicalPlan::Projection(proj) => {
+                proj.expr.iter().all(|e| matches!(e, Expr::Column(_)))
+                    && Self::exposes_stored_columns(&proj.input)
+            }
+            _ => false,
         }
     }
 
